@@ -222,10 +222,17 @@ def check_graph(it: Any, desc: List[R.Node], replace: Dict[str, str]) -> Tuple[s
         return "outside-precondition", ""
     want = R.canon(R.spec_rewrite(desc, replace, has_constraint), sigs)
     g, _ = to_model(it, desc)
+    tmap = it.getattr(it.get_module("unit_scaling.functional"), "torch_map")
+    tmap0 = list(tmap.items()) if isinstance(tmap, dict) else None
     try:
         out = run_backend(it, g, replace)
     except PyRaise as e:
         return "raises", f"{e.exc}: {e.msg}" if hasattr(e, "exc") else str(e)
+    # frame: the module-level map of built-in replacements is read, never written (a user's `replace`
+    # must not leak into later calls)
+    tmap1 = it.getattr(it.get_module("unit_scaling.functional"), "torch_map")
+    if tmap0 is not None and (tmap1 is not tmap or len(tmap1) != len(tmap0) or any(k1 is not k0 or v1 is not v0 for (k0, v0), (k1, v1) in zip(tmap0, tmap1.items()))):
+        return "deviates", "frame: unit_scaling.functional.torch_map was modified by the backend (entries of the user's replace map written into the built-in map)"
     got_desc = from_model(it, out.graph)
     bad = R.lint(got_desc)
     if bad:
